@@ -232,6 +232,24 @@ def x86_cases(f, mode, has_evex_sibling=True):
         out.append(mk(base, "k", opt, ("k", 1)))
         if f["zmask"]:
             out.append(mk(base, "kz", opt | X.OPT["z"], ("k", 1)))
+        # {k} together with the memory alternative of every register-or-memory operand (the query has separate paths for them)
+        for j, o in enumerate(f["operands"]):
+            if any(a[0] in ("reg", "fixed") for a in o["alts"]) and any(a[0] == "mem" for a in o["alts"]):
+                out.append(mk(full_operands(f, mode, mem_pos=j, ids=ids), "k+mem%d" % j, opt, ("k", 1), mem_pos=j))
+                if f["zmask"]:
+                    out.append(mk(full_operands(f, mode, mem_pos=j, ids=ids), "kz+mem%d" % j, opt | X.OPT["z"], ("k", 1), mem_pos=j))
+    # immediates at the sign / width boundaries (the RW answer of mov depends on the immediate: a value that only the
+    # imm64 register form can hold has no memory alternative)
+    if base and base[-1][0] == "i" and name not in ("vpternlogd", "vpternlogq"):
+        a = _pick(f["operands"][len(base) - 1], False)
+        bits = a[1] if a and a[0] == "imm" else 0
+        vals = []
+        if bits == 32:
+            vals = [0x7F, 0x80, 0x7FFFFFFF, 0x80000000, 0xFFFFFFFF]
+        elif bits == 64:
+            vals = [0x7F, 0x80, 0x7FFFFFFF, 0x80000000, 0xFFFFFFFF, 0x100000000, 0xFFFFFFFF80000000, 0xFFFFFFFFFFFFFFFF]
+        for v in vals:
+            out.append(mk(list(base[:-1]) + [("i", v)], "imm=%#x" % v, opt))
     if name in ("vpternlogd", "vpternlogq") and base is not None and base[-1][0] == "i":
         # imm8 0x11 (the default) makes the result independent of the destination; 0xCA = A ? B : C depends on it
         # every immediate: the destination is an input exactly when the truth table differs between A=0 and A=1
